@@ -364,15 +364,24 @@ fn strategy() -> BoxedStrategy<Case12> {
 
 /// long entered lines (far beyond 8 KiB / 64 KiB of source text on one line) and lines that produce more than 4 KiB of output
 fn long_strategy() -> BoxedStrategy<Case12> {
-    (prop::sample::select(vec![200usize, 400, 1500, 3000]), prop::sample::select(vec![0usize, 4222, 8318]), prop::collection::vec(any::<u16>(), 0..3), 1usize..=2, any::<bool>())
-        .prop_map(|(n, loop_n, cuts, target, with_exit)| {
+    (prop::sample::select(vec![200usize, 400, 1500, 3000]), prop::sample::select(vec![0usize, 4222, 8318]), prop::collection::vec(any::<u16>(), 0..3), 1usize..=2, any::<bool>(), any::<bool>())
+        .prop_map(|(n, loop_n, cuts, target, with_exit, wide)| {
             let mut cmds = Vec::new();
             for i in 0..n {
-                cmds.push(RCmd::new(0, 5 + i % 2, 13));
+                // `wide`: characters of 3, 2 and 1 bytes in turn, so that some character lies across any fixed byte offset
+                match (wide, i % 3) {
+                    (true, 0) => cmds.push(RCmd::new(0, 64, 688)), // U+AC00
+                    (true, 1) => cmds.push(RCmd::new(0, 1, 233)),  // U+00E9
+                    _ => cmds.push(RCmd::new(0, 5 + i % 2, 13)),
+                }
                 cmds.push(RCmd::new(1, 1, target));
             }
             if loop_n > 0 {
-                cmds.extend(idiom_loop_clean(loop_n, true, '💖'));
+                if wide {
+                    cmds.extend(idiom_loop_clean_chars(loop_n, &[0xAC00, 0xE9], '💖'));
+                } else {
+                    cmds.extend(idiom_loop_clean(loop_n, true, '💖'));
+                }
             }
             if with_exit {
                 cmds.extend(idiom_exit(1));
